@@ -4,8 +4,10 @@ import hashlib, json, os, random, subprocess, sys, time
 
 VERIF = os.path.dirname(os.path.dirname(os.path.abspath(__file__)))
 LEAN = os.path.join(VERIF, "lean")
-HARNESS = os.path.join(VERIF, "harness")
-RUN = os.path.join(VERIF, "run")
+# tools/seeded_matrix.sh works on its own copy of the repository and of the harness, so that it can run for hours
+# without touching /repo; registered checks never set these variables
+HARNESS = os.environ.get("VERIF_HARNESS_DIR") or os.path.join(VERIF, "harness")
+RUN = os.environ.get("VERIF_RUN_DIR") or os.path.join(VERIF, "run")
 DRIVER_BIN = os.path.join(LEAN, ".lake", "build", "bin", "driver")
 HARNESS_BIN = os.path.join(HARNESS, "target", "release", "harness")
 TOY_SUITES = ["toy31", "toy16"]
